@@ -1,13 +1,13 @@
 SPECIFICATION Spec
 CONSTANTS
-  TreeSet <- Trees2
-  OptSet <- OptsA
+  TreeSet <- Trees3
+  OptSet <- OptsB
   MaxBackups = 2
-  MaxDeletes = 2
+  MaxDeletes = 0
   MaxFaults = 0
-  AllowCrash = TRUE
+  AllowCrash = FALSE
   AllowEmptyLeftover = FALSE
-  AllowTornRmdir = TRUE
+  AllowTornRmdir = FALSE
   CombinerClearsQueueOnFailedFlush = TRUE
   Hash <- HashId
   ReaderReportsHunks = TRUE
@@ -15,8 +15,8 @@ CONSTANTS
   AllowConcurrent = FALSE
   GcStopsOnUnreadableHunk = TRUE
   GcBandsBeforeBlocks = TRUE
-    TailCarriesCount = TRUE
+    TailCarriesCount = FALSE
   GcRefusesHeadlessNewest = TRUE
-INVARIANTS Inv_Format Inv_NoDangling Inv_SnapRestores Inv_RecordedBytes Inv_CompleteSuccess Inv_SkippedReported Inv_UnchangedStoresNothing Inv_GcExact
+INVARIANTS Inv_Format Inv_NoDangling Inv_SnapRestores Inv_RecordedBytes Inv_CompleteSuccess Inv_SkippedReported Inv_UnchangedStoresNothing
 PROPERTIES Prop_WriteOnce
 CHECK_DEADLOCK FALSE
